@@ -304,10 +304,10 @@ pub fn run(ctx: &Ctx) {
          a conditional delete matching >=2 but not all tuples. Distinct = distinct statement list.",
     );
     ctx.assume("update statements are atomic: bindings from the pre-state, all deletes then all inserts (docs: '(atomic)')");
-    ctx.run_part("handler_statements", ctx.cases(1200, 30_000), || tape_strategy(120).prop_map(|t| decode(&t)), |c, o| check_handler(ctx, c, o));
+    ctx.run_part("handler_statements", ctx.cases(5000, 80_000), || tape_strategy(120).prop_map(|t| decode(&t)), |c, o| check_handler(ctx, c, o));
     ctx.run_part(
         "storage_engine_direct",
-        ctx.cases(1500, 30_000),
+        ctx.cases(5000, 80_000),
         || {
             tape_strategy(60).prop_map(|t| {
                 let mut tape = Tape::new(&t);
